@@ -11,7 +11,10 @@ import tempfile
 import warnings
 from fractions import Fraction
 
-sys.path.insert(0, "/repo/src")
+# the registered checks always run against /repo; BB_REPO lets the development sweep (harness/sweep.py)
+# point the very same machinery at a scratch copy that has a seeded change applied
+REPO = os.environ.get("BB_REPO", "/repo")
+sys.path.insert(0, os.path.join(REPO, "src"))
 import numpy as np  # noqa: E402
 
 HERE = os.path.dirname(os.path.abspath(__file__))
